@@ -64,9 +64,30 @@ def earlyVal (k : Int) : String :=
   | 9 => (cosAngleTab 45).show | 10 => (hypotAprox 196608 262144).show | 11 => (atanAprox (-65536)).show
   | _ => "bad-op"
 
+/-- `operator<<(std::ostream&, fixed_t)` of iostream.h: "NaN" for the NaN sentinel, otherwise
+    `std::fixed << std::setprecision(16) << static_cast<double>(x)`; every such double has at most 16 fraction bits, so the
+    16 decimals are exact and the text (decimal point removed) is the integer `value · 10^16` -/
+def streamText (x : Int) : String :=
+  if x = NaNp then "ok nan"
+  else match fixedToFp b64 x with
+    | .fin s m e =>
+      let mag : Nat := if e ≥ 0 then m * 10000000000000000 * pow2 e.toNat else m * 10000000000000000 / pow2 (-e).toNat
+      -- printf keeps the sign of the double, also for -0 (which cannot occur here)
+      let digits := toString mag
+      let digits := if digits.length < 17 then String.ofList (List.replicate (17 - digits.length) '0') ++ digits else digits
+      "ok " ++ (if s && mag ≠ 0 then "-" else "") ++ digits
+    | _ => "bad-op"
+
 partial def evalLine (fn0 tag0 : String) (a : Array Int) : String :=
   -- `re_<op> first-operands second-operands` : the library is called twice on the same objects; the second result counts
-  if fn0.startsWith "re_" then
+  if fn0.startsWith "lit_" then
+    let f := (fn0.drop 4).toString
+    if f == "hypot1" then evalLine "hypot" tag0 #[a.getD 0 0, 65536]
+    else if f == "sqrt" || f == "asin" || f == "acos" then evalLine f tag0 a
+    else evalLine f "" a
+  else if fn0 == "re_sincos_aprox" then evalLine "cos_aprox" tag0 (a.extract 1 2)
+  else if fn0 == "re_cossin_aprox" then evalLine "sin_aprox" tag0 (a.extract 1 2)
+  else if fn0.startsWith "re_" then
     evalLine (fn0.drop 3).toString tag0 (a.extract (a.size / 2) a.size)
   else
   let fn := canon fn0
@@ -75,10 +96,15 @@ partial def evalLine (fn0 tag0 : String) (a : Array Int) : String :=
   let a1 := a.getD 1 0
   let n := a.size
   match fn, n with
+  | "shl_lit", 2 => (shl a0 a1).show
+  | "shr_lit", 2 => (shr a0 a1).show
+  | "mul_lit", 2 => (mulInt .i32 a0 a1).show
+  | "div_lit", 2 => (divInt .i32 a0 a1).show
   | "addeq_self", 1 => (add a0 a0).show
   | "subeq_self", 1 => (sub a0 a0).show
   | "muleq_self", 1 => (mul a0 a0).show
   | "diveq_self", 1 => (FixedMath.div a0 a0).show
+  | "stream", 1 => streamText a0
   | "early", 1 => earlyVal a0
   | "late", 1 => earlyVal a0
   | "neg", 1 => (neg a0).show
